@@ -176,25 +176,25 @@ divpair_harness!(euclidean_slash_table, euclidean_slash_zero, euclidean_slash, s
 
 
 
-#[kani::proof]
-fn division_fix_big() {
-    let a: isize = kani::any();
-    let b = any_big();
-    let bv = big_val(&b);
-    // |fixnum| < |bignum| always: quotient 0 / remainder follows the sign rules
-    let (q, r) = div_trunc(a as i128, bv);
-    assert!(is_int(&truncate_quotient(&[IntV(a), b.clone()]), q));
-    assert!(is_int(&truncate_remainder(&[IntV(a), b.clone()]), r));
-    let (fq, fr) = div_floor_spec(a as i128, bv);
-    assert!(is_int(&floor_quotient(&[IntV(a), b.clone()]), fq));
-    assert!(is_int(&floor_remainder(&[IntV(a), b.clone()]), fr));
-    assert!(is_int(&modulo(&[IntV(a), b.clone()]), fr));
-    let (eq, er) = div_euclid_spec(a as i128, bv);
-    assert!(is_int(&euclidean_quotient(&[IntV(a), b.clone()]), eq));
-    assert!(is_int(&euclidean_remainder(&[IntV(a), b.clone()]), er));
+macro_rules! fix_big_harness {
+    ($name:ident, $f:ident, $spec:ident, $sel:tt) => {
+        // |fixnum| < |bignum| always: the quotient is 0 or -1 and the remainder follows the sign rule
+        #[kani::proof]
+        fn $name() {
+            let a: isize = kani::any();
+            let b = any_big();
+            let s = $spec(a as i128, big_val(&b));
+            assert!(is_int(&$f(&[IntV(a), b]), s.$sel));
+        }
+    };
 }
-
-
+fix_big_harness!(truncate_quotient_fix_big, truncate_quotient, div_trunc, 0);
+fix_big_harness!(truncate_remainder_fix_big, truncate_remainder, div_trunc, 1);
+fix_big_harness!(floor_quotient_fix_big, floor_quotient, div_floor_spec, 0);
+fix_big_harness!(floor_remainder_fix_big, floor_remainder, div_floor_spec, 1);
+fix_big_harness!(modulo_fix_big, modulo, div_floor_spec, 1);
+fix_big_harness!(euclidean_quotient_fix_big, euclidean_quotient, div_euclid_spec, 0);
+fix_big_harness!(euclidean_remainder_fix_big, euclidean_remainder, div_euclid_spec, 1);
 
 // ------------------------------------------------------------------ canonicalisation
 #[kani::proof]
